@@ -48,7 +48,7 @@ CLAIMED = {
    text="TLC enumerates all 576 abstract access vectors x pipeline stages and checks blocked <=> contract, blocked leaves no trace, allow overrides block, exceptions unblock, unblocked is processed; every realisable vector (294) is concretised (overlapping prefixes incl. /0, /31, /32, IPv6, v4-mapped and zoned clients, ASNs, rule variants, mixed case) and validated against the real code both at unit level and through the full handler stack, where the effect set (written, resolved, filtered, cached, logged, billed, rulestat, dnsdb) is observed with recording fakes.",
    note=TRUST + "contract written from the property text and docs; the Go abstraction function (bitwise subnet membership, ASN equality, small rule matcher) and recording fakes; cache effect read from the cache's Prometheus metrics; EDNS options, root name, CHAOS class and special domains excluded.", ref="6 C10"),
  "C11": dict(
-   tech="TLA+ spec HashPrefix.tla (contract over names from the property; implementation-shaped layer over hash prefix/rest pairs) checked exhaustively by TLC with 7 seeded-defect sanity configs; TLC-generated and seeded Reset/Lookup/PrefixQuery sequences executed on the real hashprefix.Storage, Filter (file and HTTP refresh, cold and cached), Matcher and the preservice TXT middleware; every event validated by TLC (TraceHashPrefix.tla) with SHA-256 computed by the harness",
+   tech="TLA+ spec HashPrefix.tla (contract over names from the property; implementation-shaped layer over hash prefix/rest pairs) checked exhaustively by TLC with 7 seeded-defect sanity configs; TLC-generated and seeded Reset/Lookup/PrefixQuery sequences executed on the real hashprefix.Storage, Filter (file and HTTP refresh, cold and cached), Matcher and the preservice TXT middleware; every event validated by TLC (TraceHashPrefix.tla) with SHA-256 computed by the harness; a request parked between matching and caching while the list is reset (gate laboratory, TraceFilterCache.tla)",
    text="TLC enumerates every name of up to 6 labels over {a, blogspot, com, co, uk} against lists drawn from 12 names at the suffix and four-label cut-offs (ICANN, private and unmanaged suffixes; a hash table in which distinct names share the two-byte prefix), every set of up to 3 of 13 prefix strings (valid, legacy, upper case, bad length, non-hex) and every Reset order, and proves MatchIffListed, PrefixQueryExact, MalformedRefused and ResetIsTotal. The same actions with real public suffixes, real SHA-256 prefix collisions and realistic list texts are executed on the real Storage, Filters, Matcher and middleware and TLC judges every observation, including the storage content after each Reset.",
    note=TRUST + "the harness's list-text writer and crypto/sha256; the spec's PSL entries are cross-checked against golang.org/x/net/publicsuffix for every host used (wildcard/exception rules not modelled); 'the public suffix' is read as the registry (ICANN) suffix.", ref="6 C11"),
  "C12": dict(
@@ -64,7 +64,7 @@ CLAIMED = {
    text="TLC explores every interleaving of backend mutations (attach/detach/move, linked/dedicated IP and human-id changes and swaps, profile deletion), full and partial syncs, restarts from the cache file, look-ups and the background clean-ups they spawn (each an independently scheduled step) and checks in every state that all four look-ups answer with the owner in the last synchronised data; two sanity configs show the pinned tree's defects are expressible. The same histories are forced on the real database (clean-ups queued by an overlay rewrite and run when the schedule says), every probe of every key after every step is checked by TLC against the oracle, a restart must restore every profile/device field (structural deep comparison over randomised settings), and every system call of the cache-file replacement is a kill point after which the file must load as a complete version.",
    note=TRUST + "the scripted Storage delivers whole dirty profiles like backendpb; regex overlay rewrites of profiledb.go (time.Now -> VerifNow, `go db.remove*` -> VerifGo) fail closed (exit 2) if the source shape changes; strace syscall injection; auto-device creation not modelled.", ref="6 C14"),
  "C15": dict(
-   tech="TLA+ decision table QueryLog.tla and writer-interleaving model QueryLogFile.tla checked exhaustively by TLC (+ sanity variants); per-line trace validation of real ratelimitmw -> mainmw -> querylog.FileSystem executions and of strace-recorded write(2) calls plus file read-back",
+   tech="TLA+ decision table QueryLog.tla and writer-interleaving model QueryLogFile.tla checked exhaustively by TLC (+ sanity variants); per-line trace validation of real ratelimitmw -> mainmw -> querylog.FileSystem executions and of strace-recorded write(2) calls plus file read-back; billing records across failed, overlapping uploads on the real RuntimeRecorder (BillStat.tla behaviours, TraceBillStat.tla)",
    text="TLC enumerates attribution x QueryLog/IPLog flags x fate (processed, debug, failed, undelivered, rate-limited, access-blocked, unknown dedicated) x filter outcome x protocol x request facts and checks LoggedIff, BilledIff, IPIffIPLog, EntryDescribesOwnRequest, NothingForDropped; the file model explores all interleavings of 4 writers x 3 entries (Encode to a private buffer; one atomic append) for FileIsWholeLines. Real requests over the whole product (drop stages driven for real) are validated line by line against the table, and every write system call on the log file plus every line read back from concurrent writers is validated against the file model.",
    note=TRUST + "filter, upstream, device finder and GeoIP are scripted; the documented log format is transcribed from doc/querylog.md; strace for the syscall-level observation (falls back to read-back only, noted in the evidence); real interleavings are sampled, exhaustive interleaving coverage is TLC's.", ref="6 C15"),
  "C16": dict(
